@@ -99,20 +99,25 @@ impl Ev {
     }
 }
 
+/// what happened to descriptor number A before the coroutines start (non-initial start states)
+const PRE: [&str; 4] = ["nothing", "A had read+write interest, was closed through the hook and its number reused", "A had read interest, was closed through the hook and its number reused", "A had write interest, was closed through the hook and its number reused"];
+
 #[derive(Clone, Debug, Hash)]
 pub struct Case {
     progs: Vec<Vec<Step>>,
     evs: Vec<Ev>,
+    pre: usize,
 }
 
 impl Case {
     fn to_json(&self) -> Value {
-        json!({"coroutines": self.progs.iter().map(|p| p.iter().map(|s| s.to_s()).collect::<Vec<_>>()).collect::<Vec<_>>(), "driver": self.evs.iter().map(|e| e.to_s()).collect::<Vec<_>>()})
+        json!({"coroutines": self.progs.iter().map(|p| p.iter().map(|s| s.to_s()).collect::<Vec<_>>()).collect::<Vec<_>>(), "driver": self.evs.iter().map(|e| e.to_s()).collect::<Vec<_>>(), "before": PRE[self.pre]})
     }
     fn from_json(v: &Value) -> Option<Case> {
         Some(Case {
             progs: v.get("coroutines")?.as_array()?.iter().map(|p| p.as_array()?.iter().map(|s| s.as_str().and_then(Step::from_s)).collect::<Option<Vec<_>>>()).collect::<Option<Vec<_>>>()?,
             evs: v.get("driver")?.as_array()?.iter().map(|e| e.as_str().and_then(Ev::from_s)).collect::<Option<Vec<_>>>()?,
+            pre: v.get("before").and_then(Value::as_str).and_then(|b| PRE.iter().position(|x| *x == b)).unwrap_or(0),
         })
     }
     fn digest(&self) -> u64 {
@@ -281,6 +286,19 @@ pub fn run_case(c: &Case) -> (Vec<Viol>, BTreeMap<String, u64>) {
     ST.with(|s| *s.borrow_mut() = St { fds, cur: vec![None; n], done: vec![Vec::new(); n], ..St::default() });
     let mut lp = SyncLoop::new(&format!("c20s-loop-{dg:x}"), 128 * 1024, 0, 4, 0).expect("loop");
     lp.enter();
+    if c.pre > 0 {
+        if c.pre == 1 || c.pre == 2 {
+            let _ = lp.add_read_event(fds[0]);
+        }
+        if c.pre == 1 || c.pre == 3 {
+            let _ = lp.add_write_event(fds[0]);
+        }
+        let _ = sc::close(None, fds[0]);
+        unsafe {
+            libc::close(peers[0]);
+            open_pair(fds[0], peers[0]);
+        }
+    }
     for (j, prog) in c.progs.iter().enumerate() {
         let prog = prog.clone();
         let co: SchedulableCoroutine<'static> = open_coroutine_core::co!(
@@ -528,7 +546,13 @@ pub fn cases(tier: &str) -> Vec<Case> {
                 if matches!(evs.last(), Some(Ev::Reopen(_) | Ev::Fault | Ev::Idle)) {
                     continue;
                 }
-                v.push(Case { progs: progs.clone(), evs });
+                // non-initial start states for the single-coroutine programs
+                if progs.len() == 1 && evs.len() <= 2 {
+                    for pre in 1..PRE.len() {
+                        v.push(Case { progs: progs.clone(), evs: evs.clone(), pre });
+                    }
+                }
+                v.push(Case { progs: progs.clone(), evs, pre: 0 });
             }
         }
     }
@@ -547,7 +571,7 @@ pub fn run(tier: &str, rep: &mut Report) {
     let (l0, l1, e) = bounds(tier);
     rep.bounds = json!({"descriptors": 2, "coroutines": "1..=2", "program_steps": ["read(A|B)", "write(A|B) into a full socket"], "steps_of_coroutine_0": l0, "steps_of_coroutine_1": l1,
         "driver_events": ["make-readable(slot)", "make-writable(slot)", "close+reopen(slot) through the hooked close", "next-poll-fails(EINTR)", "let-12ms-pass"], "driver_sequence_length": format!("0..={e}"),
-        "symmetry": "coroutine 0 starts on slot A", "cases": cs.len()});
+        "symmetry": "coroutine 0 starts on slot A", "start_states": PRE, "cases": cs.len()});
     rep.require(&["woken_at_the_readiness_instant", "resumes_checked_against_own_descriptor", "cases_with_two_coroutines", "reopens_applied", "poll_failures_injected"]);
     for c in cs.iter().step_by((cs.len() / 4).max(1)).take(4) {
         rep.sample(c.to_json());
